@@ -438,7 +438,7 @@ class FieldStorage:
             header = self.parse_header(header_raw)
             self.headers[header.name] = header
             if header.name == 'Content-Disposition':
-                self.name = header.options['name']
+                self.name = header.options.get('name')   # a missing name is reported below
                 self.filename = header.options.get('filename')
             elif header.name == 'Content-Type':
                 self.ctype = header.value
